@@ -9,3 +9,7 @@ func (e *Environment) RootStore() map[string]Object {
 	}
 	return e.store
 }
+
+// VerifNumReg reports how many integer registers the environment currently holds (C10: none of the root scope's
+// may stay taken between two inputs).
+func VerifNumReg(e *Environment) int { return e.numReg }
